@@ -141,7 +141,7 @@ macro_rules! fp_suite {
                     let base = mk(&pool.vals[7 % pool.vals.len()]);
                     let sb = base.to_slice();
                     for (i, v) in crate::reps::canon_patterns(&m).iter().enumerate() {
-                        if (i as u64 + a.seed) % (if a.tier == "thorough" { 1 } else { 6 }) != 0 { continue; }
+                        if (i as u64 + a.seed % 1000003) % (if a.tier == "thorough" { 1 } else { 6 }) != 0 { continue; }
                         let fe = mk(&v[..]);
                         let se = fe.to_slice();
                         out.call("f.pow", json!({"F": $fstr, "a": b(&sb), "e": b(&se)}), || outs! {"out" => b(&base.pow(fe).to_slice())});
